@@ -167,11 +167,37 @@ def run_spec(cfgs, name, shards=8, timeout=1500):
 # --------------------------------------------------------------------------------------
 # real runs
 # --------------------------------------------------------------------------------------
-def expected_streams(seed, nchain, total):
+BITGENS = ("PCG64", "Philox", "MT19937", "SFC64")
+
+
+def make_rng(bitgen, seed):
+    return np.random.Generator(getattr(np.random, bitgen)(seed))
+
+
+def cfg_rng(cfg):
+    """Generator family and draw kind of a configuration: a deterministic function of the configuration so
+    that the family as a whole covers every bit generator with both draw kinds without more runs."""
+    h = (cfg["nchain"] * 7 + cfg["nproc"] * 3 + len(cfg["stages"]) * 5 + sum(s["n"] for s in cfg["stages"])
+         + cfg["intr"]["stage"] * 11 + cfg["intr"]["k"] * 13 + cfg["intr"]["chain"])
+    return cfg.get("bitgen") or BITGENS[h % 4], cfg.get("draw") or ("uint32", "double")[(h // 4) % 2]
+
+
+def expected_streams(seed, nchain, total, bitgen="PCG64", kind="double"):
     from mici.samplers import _get_per_chain_rngs
 
-    rngs = _get_per_chain_rngs(np.random.default_rng(seed), nchain)
-    return [{float(g.random()): j + 1 for j in range(total + 2)} for g in rngs]
+    from mbv import sampler_probe as P
+
+    rngs = _get_per_chain_rngs(make_rng(bitgen, seed), nchain)
+    out = []
+    for g in rngs:
+        m = {}
+        for j in range(total + 2):
+            v = P.draw(g, kind)
+            if v in m:
+                raise MachineryError("probe draws collide: stream positions cannot be decoded")
+            m[v] = j + 1
+        out.append(m)
+    return out
 
 
 def run_real(cfg, *, seed=1234, storage="mem", delays=None, event_dir=None, init_kind="state", second_call=False,
@@ -192,8 +218,10 @@ def run_real(cfg, *, seed=1234, storage="mem", delays=None, event_dir=None, init
     P.PLAN["initfail"] = cfg.get("initfail") if (cfg.get("initfail") or {}).get("stage") else None
     P._FIRED[0] = False
     P._SEQ[0] = 0
+    bitgen, kind = cfg_rng(cfg)
+    P.PLAN["draw"] = kind
     transitions = {"stamp": P.StageStamp(bounds), "probe": P.ProbeTransition()}
-    sampler = MarkovChainMonteCarloMethod(rng=np.random.default_rng(seed), transitions=transitions)
+    sampler = MarkovChainMonteCarloMethod(rng=make_rng(bitgen, seed), transitions=transitions)
     nchain = cfg["nchain"]
     xs = [np.array([c, 0.0, np.nan, 0.0, 0.0]) for c in range(1, nchain + 1)]
     init_states = [ChainState(x=x) if init_kind == "state" else {"x": x} for x in xs]
@@ -235,7 +263,8 @@ def run_real(cfg, *, seed=1234, storage="mem", delays=None, event_dir=None, init
             shutil.rmtree(tmp, ignore_errors=True)
         return obs
     total = int(bounds[-1]) if bounds else 0
-    streams = expected_streams(seed, nchain, total)
+    streams = expected_streams(seed, nchain, total, bitgen, kind)
+    obs["rng"] = f"{bitgen}/{kind}"
     tr, sr = [], []
     for c in range(nchain):
         rows_t, rows_s = [], []
@@ -454,16 +483,31 @@ def _gnld(q):
 
 
 def hmc_run(*, sampler="static", adapters=("dual",), stager="default", n_warm=12, n_main=4, nchain=2,
-            n_process=1, intr_call=0, seed=7, trace_warm_up=False, force_memmap=False, explicit_mom=False):
+            n_process=1, intr_call=0, seed=7, trace_warm_up=False, force_memmap=False, explicit_mom=False,
+            bitgen="PCG64", record_draws=False):
     """Run a real HMC sampler; returns dict(exception, step_sizes per main row, n_final, ...)."""
     import mici
 
     logging.disable(logging.CRITICAL)
     system = mici.systems.EuclideanMetricSystem(_nld, grad_neg_log_dens=_gnld)
     integ = mici.integrators.LeapfrogIntegrator(system, step_size=None if "dual" in adapters else 0.3)
-    rng = np.random.default_rng(seed)
+    rng = make_rng(bitgen, seed)
+    draws = []
+    if record_draws:
+        # instance-level wrapper (no source hook): every momentum handed out by the system, in the parent
+        # process (meaningful for n_process=1 only)
+        inner = system.sample_momentum
+
+        def recording_sample_momentum(state, rng_):
+            mom = inner(state, rng_)
+            draws.append(np.array(mom, copy=True).tolist())
+            return mom
+
+        system.sample_momentum = recording_sample_momentum
     if sampler == "static":
         smp = mici.samplers.StaticMetropolisHMC(system, integ, rng, n_step=2)
+    elif sampler == "random":
+        smp = mici.samplers.RandomMetropolisHMC(system, integ, rng, n_step_range=(1, 3))
     else:
         smp = mici.samplers.DynamicMultinomialHMC(system, integ, rng, max_tree_depth=3)
     ads = []
@@ -484,7 +528,7 @@ def hmc_run(*, sampler="static", adapters=("dual",), stager="default", n_warm=12
         from mici.states import ChainState
         init = [ChainState(pos=x, mom=np.array([0.5, -0.1 * (c + 1), 0.2]), dir=1) for c, x in enumerate(init)]
     tf = _IntrTrace(intr_call)
-    res = {"exception": None}
+    res = {"exception": None, "draws": draws}
     try:
         with warnings.catch_warnings():
             warnings.simplefilter("ignore")
